@@ -91,6 +91,7 @@ def showLife (l : Life) : String :=
     ++ " pending=" ++ commasL (l.pending.map toString) ++ " blocked=" ++ commasL (l.blocked.map toString)
     ++ " out=" ++ commasL (l.outcomes.map (fun e => toString e.1 ++ ":" ++ showRes e.2))
     ++ " raised=" ++ commasL (l.closeRaised.map showCloseExc)
+    ++ " endready=" ++ commasL ((l.pending.filter (fun s => completedByEnd l s)).map toString)
 
 def lifeOp : List String → String
   | "run" :: toks =>
